@@ -52,7 +52,7 @@ def generate_fancy(wd, size, timeout=3600, out="cases.ndjson"):
             f.write("INIT Init\nNEXT Next\nCHECK_DEADLOCK FALSE\nCONSTANTS\n  Size = %d\n  Shard = %d\n  NShards = %d\n" % (size, k, n))
         path = os.path.join(wd, "cases_part_%d.ndjson" % k)
         paths.append(path)
-        runs.append(TlcRun(wd, "FancyGen.tla", cfg, env={"OUT": path}, name="gen_FancyGen_%d" % k, timeout=timeout, mem="8g" if n == 1 else "5g"))
+        runs.append(TlcRun(wd, "FancyGen.tla", cfg, env={"OUT": path}, name="gen_FancyGen_%d" % k, timeout=timeout, mem="8g" if n == 1 else "3g"))
     run_tlc_many(runs)
     for r in runs:
         err = r.other_error()
